@@ -111,11 +111,22 @@ package lua
 //@ define HostFrameKept(ls *LState) bool = top(ls) == old(top(ls)) && base(ls) == old(base(ls)) && (forall k int :: old(base(ls)) <= k && k < old(top(ls)) ==> ls.reg.array[k] == old(ls.reg.array[k])) && (old(Inv_gfn(ls)) ==> Inv_gfn(ls)) && (old(Inv_api(ls)) ==> Inv_api(ls)) && ls.currentFrame == old(ls.currentFrame) && (old(ls.currentFrame != nil && ls.currentFrame.Fn != nil) ==> ls.currentFrame.Fn != nil) && ls.G == old(ls.G) && ls.G.Registry == old(ls.G.Registry) && ls.G.Global == old(ls.G.Global) && MaxArrayIndex == old(MaxArrayIndex)
 //@ define HostKept(ls *LState) bool = HostFrameKept(ls) && (ls.G != nil ==> TabsOK(ls)) && (old(regsValid(ls)) ==> regsValid(ls)) && (forall k int :: base(ls) <= k && k < top(ls) ==> valOK(ls.reg.array[k])) && (forall t *LTable :: t != nil ==> arrid(t.array) != arrid(ls.reg.array) && arrid(t.keys) != arrid(ls.reg.array))
 
-//@ trusted (*LState).getFieldString [C01 C04 C07 C10 C20]
-//@ assume getFieldString/setField/setFieldString: same structure as getField (verified above); assumed here until verified
+// getFieldString: getField for a string key (t.name, globals): verified against the same "index" event clauses. What it
+// promises about the HOST activation and the system invariants after a handler ran (HostKept, valOK of the result) is
+// assumed (assumes clauses), exactly as for (*LState).Call.
+//@ func (*LState).getFieldString [C01 C04 C07 C10 C20]
 //@ logged
-//@ ensures  Disc(ls) && result != nil && valOK(result) && HostKept(ls)
+//@ requires IdxOK(ls) && valOK(obj)
+//@ raises when true
+//@ ensures  "discipline": Disc(ls) && result != nil
+//@ ensures  "raw-hit": old(isTab(obj) && sget(tab(obj), key) != LNil) ==> result == old(sget(tab(obj), key)) && ncalls() == old(ncalls())
+//@ ensures  "absent-no-handler": old(isTab(obj) && sget(tab(obj), key) == LNil && mtEvent(ls, obj, "__index") == LNil) ==> result == LNil && ncalls() == old(ncalls())
+//@ ensures  "function-handler": old((!isTab(obj) || sget(tab(obj), key) == LNil) && isFn(mtEvent(ls, obj, "__index"))) ==> ncalls() == old(ncalls()) + 1 && callfn(old(ncalls())) == fnid("(*LState).Call") && callargLV(old(ncalls()), 10) == old(mtEvent(ls, obj, "__index")) && callargLV(old(ncalls()), 11) == obj && callargLV(old(ncalls()), 12) == mkStr(key) && result == callresLV(old(ncalls()), 10)
+//@ ensures  "at-most-one-call": ncalls() <= old(ncalls()) + 1
+//@ assumes  valOK(result) && HostKept(ls)
 //@ modifies everything
+//@ loop 1 invariant 0 <= i && valOK(curobj) && (i == 0 ==> curobj == obj) && ncalls() == old(ncalls())
+//@ loop 1 invariant i > 0 ==> old((!isTab(obj) || sget(tab(obj), key) == LNil) && mtEvent(ls, obj, "__index") != LNil && !isFn(mtEvent(ls, obj, "__index")))
 //@ trusted (*LState).setField [C01 C04 C07 C10]
 //@ logged
 //@ ensures  Disc(ls)
